@@ -27,7 +27,7 @@ theorem invP_stepLast_post (V : Variant) (hW : WF V) (s s'' : State) (m m' : Mon
   have hmono := afterOk_mono
   have hne := postOk_ne_nil V.testThread
   have hWp := hW.post
-  obtain ⟨flag, pending, queue, arrAlive, reported, crashes, submitted, hit, sph, cur, todo, old, mon, oldSubs, sub, armed, faulted, dropped⟩ := s
+  obtain ⟨flag, pending, queue, arrAlive, reported, crashes, submitted, hit, sph, cur, todo, old, mon, oldSubs, sub, armed, faulted, dropped, pre, gone⟩ := s
   simp only at hmon; subst hmon
   obtain ⟨mph, iter, mcur, idx⟩ := m
   simp only at hph
@@ -61,7 +61,7 @@ theorem invP_stepLast_main (V : Variant) (hW : WF V) (s s'' : State) (m m' : Mon
   have hmono := afterOk_mono
   have hne := postOk_ne_nil V.testThread
   have hWp := hW.post
-  obtain ⟨flag, pending, queue, arrAlive, reported, crashes, submitted, hit, sph, cur, todo, old, mon, oldSubs, sub, armed, faulted, dropped⟩ := s
+  obtain ⟨flag, pending, queue, arrAlive, reported, crashes, submitted, hit, sph, cur, todo, old, mon, oldSubs, sub, armed, faulted, dropped, pre, gone⟩ := s
   simp only at hmon; subst hmon
   obtain ⟨mph, iter, mcur, idx⟩ := m
   simp only at hph
